@@ -144,6 +144,7 @@ type Sim struct {
 	lastMtime               map[string]time.Time
 	earliest                map[string]time.Time
 	rejectedIno             map[string]uint64
+	positiveOverRejected    map[string]bool
 	flipsAfterStop          int
 	rejectedAt              map[string]int // name|hash -> wire sequence number at which a complete but corrupt staged copy of that version was last seen
 	voidBefore              map[string]int // name|hash -> acknowledgements up to this sequence number are void AND the sender has been told so (failed verdict)
@@ -164,7 +165,7 @@ type Sim struct {
 func NewSim(t *vt.T, prop string, conf SimConf) *Sim {
 	w := NewWorld(t, prop)
 	s := &Sim{t: t, prop: prop, w: w, conf: conf, dead: map[int]bool{}, versions: map[string][]*srcVersion{},
-		deleted: map[string]bool{}, tainted: map[string]bool{}, lastMtime: map[string]time.Time{}, pollMismatch: map[string]bool{}, listedAt: map[int]map[string][]rng{}, heldAt: map[int]map[string]bool{}, positivePolls: map[string]bool{}, faultKinds: map[int]int{}, retransAllowed: map[string]bool{}, others: w.others}
+		deleted: map[string]bool{}, tainted: map[string]bool{}, lastMtime: map[string]time.Time{}, pollMismatch: map[string]bool{}, positiveOverRejected: map[string]bool{}, listedAt: map[int]map[string][]rng{}, heldAt: map[int]map[string]bool{}, positivePolls: map[string]bool{}, faultKinds: map[int]int{}, retransAllowed: map[string]bool{}, others: w.others}
 	s.srcDir = filepath.Join(w.dir, "src")
 	s.cacheDir = filepath.Join(w.dir, "cache")
 	s.sentDir = filepath.Join(w.dir, "sentlog")
@@ -474,6 +475,11 @@ func (s *Sim) onRelease(kind, name string) {
 		if v != nil && mism && !atStartup {
 			key = "released-on-poll-answer-about-another-version"
 		}
+		s.mu.Lock()
+		if s.positiveOverRejected[name+"|"+h] {
+			key = "released-on-positive-answer-while-rejected-copy-staged"
+		}
+		s.mu.Unlock()
 		s.mu.Lock()
 		s.asyncName = name
 		s.mu.Unlock()
@@ -818,6 +824,19 @@ func (s *Sim) Serve(r *req, f Fault) {
 				s.pollMismatch[p.GetName()+"|"+p.GetHash()] = true
 				s.mu.Unlock()
 				s.t.Class("positive-poll-answer-about-another-version")
+				// poll-by-name explains a positive answer about an older, delivered version while
+				// the new one is incomplete. It does not explain a positive answer while the
+				// receiver sits on a complete copy of exactly the polled version that it rejected.
+				if b, err := os.ReadFile(filepath.Join(s.w.StageDir(), p.GetName()+".full")); err == nil {
+					if cb, err := os.ReadFile(filepath.Join(s.w.StageDir(), p.GetName()+".cmp")); err == nil {
+						c := &sts.Partial{}
+						if json.Unmarshal(cb, c) == nil && c.Hash == p.GetHash() && md5hex(b) != c.Hash {
+							s.mu.Lock()
+							s.positiveOverRejected[p.GetName()+"|"+p.GetHash()] = true
+							s.mu.Unlock()
+						}
+					}
+				}
 			}
 			if code == sts.ConfirmFailed || code == sts.ConfirmNone {
 				s.mu.Lock()
